@@ -1,6 +1,6 @@
 // Package crash turns "process death after any individual store write" into an
 // enumerable fault: with the `leveldb` overlay feature every physical LevelDB write
-// call of the node notifies VerifWriteHook first; InstallFromEnv counts those calls
+// call of the process (hooked inside goleveldb's DB.Put/Delete/Write) notifies VerifWriteHook first; InstallFromEnv counts those calls
 // and ends the process (os.Exit, no deferred functions, no Close) immediately before
 // write number VERIF_CRASH_AT.  What earlier writes put into the OS page cache
 // survives, exactly as after a kill -9.
@@ -12,7 +12,6 @@ import (
 	"strconv"
 	"sync"
 
-	"com.tuntun.rangers/node/src/middleware/db"
 	"github.com/syndtr/goleveldb/leveldb"
 )
 
@@ -31,7 +30,7 @@ const ExitCode = 77
 // (so that boot-time writes of a fresh store are not crash points unless wanted).
 func InstallFromEnv() {
 	crashAt, _ = strconv.Atoi(os.Getenv("VERIF_CRASH_AT"))
-	db.VerifWriteHook = func(path, kind string, b *leveldb.Batch, key, value []byte) {
+	leveldb.VerifWriteHook = func(path, kind string, b *leveldb.Batch, key, value []byte) {
 		mu.Lock()
 		defer mu.Unlock()
 		if !armed {
